@@ -1,7 +1,7 @@
 (* C04 model runner.  One case per line, written as s-expressions:
 
      (let NAME E) ... (eval E)            evaluate E after binding NAMEs to the values of Es
-     (let NAME E) ... (opassign X F E)    new value of the variable X after  X F= E
+     (let NAME E) ... (opassign X F E)    new value of the variable X after  X F= E  (E may mention X)
 
    E ::= NAME                      a bound name, or else an opaque data atom called NAME
        | (B name (k ...) (k ...))  opaque builtin; a one-argument call on an argument whose key is in
@@ -119,8 +119,13 @@ let () = serve (fun line ->
        | o -> "binding-" ^ show_out o)
     | [L [A "eval"; e]] -> show_out (eval brun crun diter fuel (expr_of env e))
     | [L [A "opassign"; A x; op; rhs]] ->
+      (* op and rhs are read in the store they are evaluated in: the name x means the CURRENT value of the variable *)
       (match List.assoc_opt x env with
-       | Some xv -> show_out (op_assign brun crun diter fuel xv (expr_of env op) (expr_of env rhs))
+       | Some xv ->
+         let at (e : sx) (s : v) = expr_of ((x, s) :: env) e in
+         (match op_assign_store brun crun diter fuel var_get var_set (VData (Atom "null")) xv (at op) (at rhs) with
+          | (s2, Ok _) -> "ok " ^ show_v s2
+          | (_, Err _) -> "err" | (_, Panic) -> "panic" | (_, OutOfFuel) -> "fuel")
        | None -> "badcase")
     | _ -> "badcase" in
   go [] items)
